@@ -979,6 +979,7 @@ impl Exec<'_> {
             }
             let mut delivered = 0usize;
             let mut bno = 0u64;
+            let mut other_passes = 0u64;
             loop {
                 if let Some((at, ticks)) = pause {
                     if at as u64 == bno {
@@ -995,7 +996,14 @@ impl Exec<'_> {
                 if let Some(o) = other.as_mut() {
                     // the validation loader is consumed in between
                     if !matches!(o.next_batch(), Ok(Some(_))) {
-                        other = None; // exhausted: dropped while the observed loader is still running
+                        // exhausted: the next validation pass starts (a new iter() while the observed
+                        // loader is in the middle of its epoch); after two passes it goes away
+                        other_passes += 1;
+                        if other_passes > 2 || o.iter().is_err() {
+                            other = None;
+                        } else {
+                            rt::log(Kind::Fault, 12, other_passes);
+                        }
                     }
                 }
                 match drv.next_batch() {
